@@ -203,6 +203,49 @@ def install_clock():
 
 
 # --------------------------------------------------------------------------
+# checkpoints: a library coroutine may yield to the scheduler at any point without changing what it computes.
+# In the stub world nothing else is runnable at such a point, so a checkpoint returns at once (one legitimate
+# schedule); without this a harmless `await anyio.lowlevel.checkpoint()` added to the library would end a path
+# with NoEventLoopError.  The real-environment twins (vloop, native scenarios) put the real functions back.
+# --------------------------------------------------------------------------
+_REAL_CP = {}
+
+
+async def _noop_checkpoint():
+    return None
+
+
+async def _stub_sleep(delay):
+    if delay and delay > 0:
+        ENV.advance(ENV.now + int(to_ticks(delay)) * SUB)
+    return None
+
+
+def stub_checkpoints():
+    import anyio
+    import anyio.lowlevel as ll
+
+    if not _REAL_CP:
+        for n in ("checkpoint", "checkpoint_if_cancelled", "cancel_shielded_checkpoint"):
+            _REAL_CP[n] = getattr(ll, n)
+        _REAL_CP["sleep"] = anyio.sleep
+    for n in ("checkpoint", "checkpoint_if_cancelled", "cancel_shielded_checkpoint"):
+        setattr(ll, n, _noop_checkpoint)
+    anyio.sleep = _stub_sleep
+
+
+def real_checkpoints():
+    import anyio
+    import anyio.lowlevel as ll
+
+    for n, f in _REAL_CP.items():
+        if n == "sleep":
+            anyio.sleep = f
+        else:
+            setattr(ll, n, f)
+
+
+# --------------------------------------------------------------------------
 # helpers for oracles
 # --------------------------------------------------------------------------
 def dump(msg):
@@ -462,3 +505,9 @@ class Ticks:
 
     def __float__(self):
         return self.n / TICKS_PER_SEC
+
+
+try:
+    stub_checkpoints()
+except ImportError:  # the runner process itself may import this module without anyio
+    pass
